@@ -666,7 +666,10 @@ def _verify_body(eng, contract, target, mod, cname, node, res, seed, timeout_ms,
                             cross.append(r['cvc5'])
                         if r['status'] == 'undecided' and failed < 2 and name not in KNOWN_OPEN:
                             # no answer is not a refutation: one patient retry, so that a busy machine does not flip the verdict
+                            r_prev = r
                             r = smt.prove(hyps, goal, timeout_ms=timeout_ms, seed=seed + 7, quick_only=True, patient=True)
+                            if r['status'] == 'undecided' and r_prev.get('model') is not None:
+                                r['model'], r['reason'] = r_prev['model'], r_prev.get('reason')
                 else:
                     r = smt.refute_qf(hyps, goal, seed=seed)
                 statuses.append(r['status'])
@@ -685,7 +688,7 @@ def _verify_body(eng, contract, target, mod, cname, node, res, seed, timeout_ms,
                         for ci, conj in enumerate(alt.children()):
                             rr = smt.prove(hyps, conj, timeout_ms=4000, seed=seed, quick_only=True)
                             print('   ALT', ai, 'conjunct', ci, rr['status'], str(conj).replace('\n', ' ')[:160])
-                if r['status'] == 'refuted' and item['expect'] == 'proved' and model_txt is None and want_models:
+                if r['status'] in ('refuted', 'undecided') and r.get('model') is not None and item['expect'] == 'proved' and model_txt is None and want_models:
                     model_txt = _model_text(r.get('model'), hyps)
                 if r['status'] != 'proved' and item['expect'] == 'proved':
                     break
